@@ -306,11 +306,25 @@ def run(tier, seed, replay=None):
     sans.append(S.miri(mfile, len(msub), 'miri'))
     if thorough:
         sans.append(S.miri(mfile, len(msub), 'miri-f32', features='f32'))
+        sans[-1]['tool'] = 'miri-f32'
+    # the instrumented / interpreted executions must also RETURN what the native release binary returns for the same case lines
+    nat_s, _ = R.run_driver(bins['rel'], sfile, len(sub), 'rel-san')
+    nat_m, _ = R.run_driver(bins['rel'], mfile, len(msub), 'rel-miri')
+    natives = {'memcheck': (nat_s, sub), 'asan': (nat_s, sub), 'miri': (nat_m, msub)}
+    if thorough:
+        nat_f, _ = R.run_driver(R.build('f32'), mfile, len(msub), 'f32-miri')
+        natives['miri-f32'] = (nat_f, msub)
     extra['sanitizers'] = []
     inconcl = []
     for s in sans:
+        nat, src_lines = natives[s['tool']]
+        dn = S.differs_from_native(s, nat)
+        for i, a, b in dn:
+            rep.violations.append((s['tool'], i, 'C20:%s-vs-native:%s:value-differs' % (s['tool'], src_lines[i].split()[0]),
+                                   'native: %s | under %s: %s' % (' '.join(a)[:80], s['tool'], ' '.join(b)[:80]), src_lines[i], b))
         extra['sanitizers'].append({'tool': s['tool'], 'ops_executed': s['ops_executed'], 'reports': len(s['reports']), 'inconclusive': s['inconclusive'],
-                                    'report_kinds': sorted(set(r['kind'][:100] for r in s['reports']))[:10]})
+                                    'report_kinds': sorted(set(r['kind'][:100] for r in s['reports']))[:10],
+                                    'results_compared_with_native': sum(1 for i in s.get('results', {}) if i in nat), 'results_differing_from_native': len(dn)})
         rep.evaluations += s['ops_executed']
         if s['inconclusive']:
             inconcl.append('%s: %s' % (s['tool'], s['inconclusive']))
